@@ -65,7 +65,8 @@ TSetGram ==
   /\ IsEvent("setgram")
   /\ gram' = GramOf(Case.events[l + 1].gram)
   /\ lex' = IF "keeplex" \in DOMAIN Case.events[l + 1] THEN lex ELSE EmptyBag
-  /\ ref' = [ref EXCEPT !.fromtrees = FALSE]
+  \* (keeplex: the grammar set is the binarization of the extracted one - still the grammar of these trees)
+  /\ ref' = [ref EXCEPT !.fromtrees = @ /\ "keeplex" \in DOMAIN Case.events[l + 1]]
   /\ UNCHANGED <<tid, errs, done>>
 TBinarize ==
   /\ IsEvent("binarize")
@@ -82,6 +83,12 @@ TBinarize ==
 SetOfSeq(s) == {s[i] : i \in 1..Len(s)}
 LexRuleBag(lx) == [g \in {[func |-> <<e[2], e[1]>>, lin |-> << << <<0, 0>> >> >>] : e \in DOMAIN lx} |->
                      SumOver({e \in DOMAIN lx : g.func = <<e[2], e[1]>>}, LAMBDA e : lx[e])]
+\* C08 on what is written: the counts a reader of the file obtains (function names resolve to one rule each)
+\* are conserved like those of the grammar in memory
+FileCounts(Gdec) ==
+  IF ~ref.fromtrees THEN {}
+  ELSE F("C08.written.lhs_totals", LhsTotals(Gdec, ref.nodecnt)) \cup
+       F("C08.written.flow", Flow(Gdec, lex, ref.roots))
 WriteErrs(e) ==
   LET G == SumVert(gram)
       lig == e.lig = "T"
@@ -103,16 +110,19 @@ WriteErrs(e) ==
      F("C09.pmcfg.wellformed", PmcfgWF(e.files.pmcfg)) \cup
      (IF PmcfgWF(e.files.pmcfg) THEN
         F("C09.pmcfg.decodes", DecodePMCFG(e.files.pmcfg) = Gexp) \cup
+        FileCounts(IF lig THEN WithoutLex(DecodePMCFG(e.files.pmcfg), words) ELSE DecodePMCFG(e.files.pmcfg)) \cup
         (IF lig THEN F("C09.lex_in_grammar",
                        /\ LexFromGram(DecodePMCFG(e.files.pmcfg), words) = lex
                        /\ WithoutLex(DecodePMCFG(e.files.pmcfg), words) = G)
          ELSE {})
-      ELSE {}) \cup
+      ELSE (IF ref.fromtrees THEN {"C08.written.lhs_totals"} ELSE {})) \cup    \* no well-defined counts at all
      (IF lig THEN {} ELSE F("C09.lex.counts", LexWF(e.files.lex) /\ DecodeLex(e.files.lex) = lex))
   ELSE \* rcg
      F("C09.rcg.wellformed", RcgWF(e.files.rcg) /\ \A i \in Idx(e.files.rcg) : RcgVarsOK(e.files.rcg[i])) \cup
      (IF RcgWF(e.files.rcg) /\ \A i \in Idx(e.files.rcg) : RcgVarsOK(e.files.rcg[i])
-      THEN F("C09.rcg.decodes", DecodeRCG(Syms, e.files.rcg) = Gexp) ELSE {}) \cup
+      THEN F("C09.rcg.decodes", DecodeRCG(Syms, e.files.rcg) = Gexp) \cup
+           FileCounts(IF lig THEN WithoutLex(DecodeRCG(Syms, e.files.rcg), words) ELSE DecodeRCG(Syms, e.files.rcg))
+      ELSE {}) \cup
      (IF lig THEN {} ELSE F("C09.lex.counts", LexWF(e.files.lex) /\ DecodeLex(e.files.lex) = lex))
 TWrite == /\ IsEvent("write")
           /\ errs' = errs \cup {<<c, l + 1>> : c \in WriteErrs(Case.events[l + 1])}
